@@ -219,6 +219,9 @@ def perform(U, action, args, state):
             res = op.optimize(solver='SCIPY')
             if isinstance(res, str):
                 return ('status', res)
+            # EAOHistory.OutputDefined: the tables are specified only while every asset still refers to the problem's grid
+            if state and 'agrid' in state and any(g != state.get('pgrid') for g in state['agrid'].values()):
+                return ('result_only', round(float(res.value), 7), tuple(np.round(np.asarray(res.x, float), 6)))
             out = eao.io.extract_output(U.portfolio, op, res)
             return ('result', round(float(res.value), 7), tuple(np.round(np.asarray(res.x, float), 6)),
                     tuple(map(tuple, np.round(out['dispatch'].values.astype(float), 6))), tuple(map(tuple, np.round(out['DCF'].values.astype(float), 6))))
